@@ -14,7 +14,8 @@ things mean:
 
 page 1 lists F1 F2 and shows <41 42> with F1, CODE1 CODE2 with F2; page 2 lists F1 F3 and shows <42 41> with F1,
 CODE1 CODE2 with F3.  Page 2 of every document also paints an inline image; page 1 of dB also shows a 3 x 3 grid of
-identical one-glyph text boxes at pairwise equal distances.
+identical one-glyph text boxes at pairwise equal distances, and defines and paints a form /Fm1 (object 20).  Page 2 of dB has
+an EMPTY /Resources dictionary yet says /CS0 cs, /F1 Tf and /Fm1 Do: those names are undefined there.
 The tables of the model (what WinAnsi gives for 0x41/0x42, which CID H and V give for CODE1/CODE2, what
 to-unicode-Adobe-Japan1 gives for those CIDs) are constants read from the pdfminer package at run time.
 """
@@ -49,6 +50,10 @@ def objects(d):
     if cs:
         res1["ColorSpace"] = cs
         res2["ColorSpace"] = dict(cs)
+    if d == "dB":
+        # page 1 defines (and paints) a form /Fm1; page 2 has an EMPTY /Resources dictionary
+        res1["XObject"] = {"Fm1": Ref(20)}
+        res2 = {}
     objs[3] = {"Type": Name("Page"), "Parent": Ref(2), "Resources": res1, "Contents": Ref(7)}
     objs[4] = {"Type": Name("Page"), "Parent": Ref(2), "Resources": res2, "Contents": Ref(8)}
     f1 = {"Type": Name("Font"), "Subtype": Name("TrueType"), "BaseFont": Name("VerifSans"), "FirstChar": C1, "LastChar": C2,
@@ -72,10 +77,15 @@ def objects(d):
         grid = b" /F1 10 Tf " + b" ".join(b"1 0 0 1 %d %d Tm <42> Tj" % (60 + 60 * j, 400 - 60 * i)
                                           for i in range(3) for j in range(3))
     objs[7] = Stream({}, b"/CS0 cs " + col + b" BT /F1 10 Tf 1 0 0 1 50 700 Tm <4142> Tj /F2 10 Tf 1 0 0 1 50 600 Tm <"
-                     + two + b"> Tj" + grid + b" ET")
+                     + two + b"> Tj" + grid + b" ET" + (b" /Fm1 Do" if d == "dB" else b""))
     # HasInline: page 2 of every document carries an inline image
-    objs[8] = Stream({}, b"q 20 0 0 20 200 700 cm BI /W 1 /H 1 /BPC 8 /CS /G /F /AHx ID 7f> EI Q\n/CS0 cs " + col
-                     + b" BT /F1 10 Tf 1 0 0 1 50 700 Tm <4241> Tj /F3 10 Tf 1 0 0 1 50 600 Tm <" + two + b"> Tj ET")
+    if d == "dB":
+        # the names /CS0 /F1 /Fm1 are NOT defined on this page (empty /Resources): default colour space, default font, no form
+        objs[8] = Stream({}, b"q 20 0 0 20 200 700 cm BI /W 1 /H 1 /BPC 8 /CS /G /F /AHx ID 7f> EI Q\n/CS0 cs " + col
+                         + b" BT /F1 10 Tf 1 0 0 1 50 700 Tm <4241> Tj ET /Fm1 Do")
+    else:
+        objs[8] = Stream({}, b"q 20 0 0 20 200 700 cm BI /W 1 /H 1 /BPC 8 /CS /G /F /AHx ID 7f> EI Q\n/CS0 cs " + col
+                         + b" BT /F1 10 Tf 1 0 0 1 50 700 Tm <4241> Tj /F3 10 Tf 1 0 0 1 50 600 Tm <" + two + b"> Tj ET")
     cid = {"Type": Name("Font"), "Subtype": Name("CIDFontType0"), "BaseFont": Name("VerifMincho"),
            "CIDSystemInfo": {"Registry": b"Adobe", "Ordering": b"Japan1", "Supplement": 2},
            "FontDescriptor": Ref(12), "DW": DW[d]}
@@ -101,6 +111,9 @@ def objects(d):
     objs[15] = w1
     objs[16] = Stream({"N": max(CSN[d], 1)}, b"\0" * 8)
     objs[17] = {"Unused": True}
+    # a form without /Resources of its own (it uses the page's): one glyph with the page's /F1
+    objs[20] = Stream({"Type": Name("XObject"), "Subtype": Name("Form"), "BBox": [0, 0, 300, 800]},
+                      b"BT /F1 10 Tf 1 0 0 1 200 300 Tm <41> Tj ET")
     if d == "dA":
         objs[19] = Stream({}, tounicode_cmap([("bfchar", [(CID_H1, "T"), (CID_2, "U")])], codelen=2))
     else:
